@@ -59,7 +59,6 @@ import (
 	"errors"
 	"fmt"
 	"math/big"
-	"os"
 	"sort"
 	"strings"
 	"time"
@@ -1982,9 +1981,6 @@ func (w *sgWorld) runMulti(c *sgCase, in *sgInput) {
 				// amino JSON and the EIP-712 typed data cannot render this transaction (MsgEthereumTx refuses to give amino
 				// sign bytes, the legacy typed data has no MsgExec), so no valid signature of the route exists for it:
 				// the envelope of the route is put around a SIGN_MODE_DIRECT signature
-				if os.Getenv("SG_DEBUG") != "" {
-					fmt.Fprintf(os.Stderr, "unsignable %s: %v\n", shape, err)
-				}
 				var b0 []byte
 				if b0, _, err = w2.sgSignCosmosGas(ctx, "cosmos-direct", signer, chainID, chainID, accNum, seq, msgs, price, gas); err == nil {
 					b, err = w2.sgCosmosMutate(b0, func(bd client.TxBuilder, tx sdk.Tx) error {
@@ -2013,9 +2009,6 @@ func (w *sgWorld) runMulti(c *sgCase, in *sgInput) {
 			}
 			if err != nil {
 				c.tags[fmt.Sprintf("wrapped:unbuildable:%s:depth%d", wr.Route, depth)] = true
-				if os.Getenv("SG_DEBUG") != "" {
-					fmt.Fprintf(os.Stderr, "unbuildable %s: %v\n", shape, err)
-				}
 				return
 			}
 			bz = b
@@ -2110,12 +2103,9 @@ func (w *sgWorld) runMulti(c *sgCase, in *sgInput) {
 			execs[g.hash] = int(q.Int64())
 			anyExec = anyExec || q.Sign() > 0
 		}
-		// ---- the property.  The sequences as the messages find them: the Cosmos ante handler, when it
-		// passes, has consumed the wrapper signer's sequence number before any message runs.
+		// ---- the property.  "The account's current sequence number" = its sequence when the carrying
+		// transaction is submitted (plus its earlier messages in it), as for the Ethereum route.
 		cur := append([]uint64{}, pre...)
-		if cosmosSigned && aerr == nil {
-			cur[signerIdx]++
-		}
 		cat := ""
 		var whos []int
 		executed := []int{}
